@@ -945,7 +945,11 @@ func ruleR11g(c *Ctx, r *Report) {
 	}
 	// the width: the one 32-bit parameter, wherever it stands
 	var widthP *ssa.Parameter
-	for _, p := range fn.Params[1:] {
+	params := fn.Params
+	if fn.Signature.Recv() != nil && len(params) > 0 {
+		params = params[1:]
+	}
+	for _, p := range params {
 		if b, ok := p.Type().Underlying().(*types.Basic); ok && b.Kind() == types.Uint32 {
 			widthP = p
 		}
